@@ -153,6 +153,59 @@ func genLocks(repo, out string) {
 					continue
 				}
 				var ev []string
+				// instance labels of the caches created in this function: cache.New(...) assigned to x.f or used as the value of
+				// field f of a composite literal of type T gives "<owner type>.f" / "T.f"
+				newLabel := map[*ast.CallExpr]string{}
+				isCacheNew := func(c *ast.CallExpr) bool {
+					var id *ast.Ident
+					switch fx := c.Fun.(type) {
+					case *ast.IndexListExpr:
+						if se, ok := fx.X.(*ast.SelectorExpr); ok {
+							id = se.Sel
+						}
+					case *ast.IndexExpr:
+						if se, ok := fx.X.(*ast.SelectorExpr); ok {
+							id = se.Sel
+						}
+					case *ast.SelectorExpr:
+						id = fx.Sel
+					}
+					if id == nil {
+						return false
+					}
+					f, _ := info.Uses[id].(*types.Func)
+					return f != nil && f.Pkg() != nil && f.Pkg().Path() == "github.com/olareg/olareg/internal/cache" && f.Name() == "New"
+				}
+				ast.Inspect(fd.Body, func(n ast.Node) bool {
+					switch x := n.(type) {
+					case *ast.AssignStmt:
+						for i, r := range x.Rhs {
+							if c, ok := r.(*ast.CallExpr); ok && isCacheNew(c) && i < len(x.Lhs) {
+								if sel, ok := x.Lhs[i].(*ast.SelectorExpr); ok {
+									newLabel[c] = className(sel)
+								}
+							}
+						}
+					case *ast.CompositeLit:
+						tn := ""
+						if tv, ok := info.Types[x]; ok {
+							if n := namedOf(tv.Type); n != nil {
+								tn = n.Obj().Name()
+							}
+						}
+						for _, el := range x.Elts {
+							if kv, ok := el.(*ast.KeyValueExpr); ok {
+								if c, ok := kv.Value.(*ast.CallExpr); ok && isCacheNew(c) {
+									if k, ok := kv.Key.(*ast.Ident); ok {
+										newLabel[c] = tn + "." + k.Name
+									}
+								}
+							}
+						}
+					}
+					return true
+				})
+				lockedSet := false // `locked = true` was assigned (after the function took the lock itself): passing `locked` on passes true
 				var walk func(n ast.Node, deferred bool, cond bool)
 				lockedParam := func(sig *types.Signature) int {
 					for i := 0; i < sig.Params().Len(); i++ {
@@ -167,6 +220,14 @@ func genLocks(repo, out string) {
 						return
 					}
 					switch x := n.(type) {
+					case *ast.AssignStmt:
+						if len(x.Lhs) == 1 && len(x.Rhs) == 1 {
+							if l, ok := x.Lhs[0].(*ast.Ident); ok && l.Name == "locked" {
+								if r, ok := x.Rhs[0].(*ast.Ident); ok && r.Name == "true" {
+									lockedSet = true
+								}
+							}
+						}
 					case *ast.DeferStmt:
 						if fl, ok := x.Call.Fun.(*ast.FuncLit); ok {
 							ev = append(ev, "defer func{")
@@ -253,6 +314,12 @@ func genLocks(repo, out string) {
 							} else {
 								callee, _ = info.Uses[fx.Sel].(*types.Func)
 							}
+						case *ast.IndexListExpr: // generic instantiation f[T, U](...)
+							if id, ok := fx.X.(*ast.Ident); ok {
+								callee, _ = info.Uses[id].(*types.Func)
+							} else if se, ok := fx.X.(*ast.SelectorExpr); ok {
+								callee, _ = info.Uses[se.Sel].(*types.Func)
+							}
 						case *ast.IndexExpr: // generic instantiation f[T](...)
 							if id, ok := fx.X.(*ast.Ident); ok {
 								callee, _ = info.Uses[id].(*types.Func)
@@ -279,6 +346,9 @@ func genLocks(repo, out string) {
 									flag = "F"
 								case "locked":
 									flag = "P"
+									if lockedSet {
+										flag = "T"
+									}
 								default:
 									flag = "F"
 								}
@@ -314,6 +384,23 @@ func genLocks(repo, out string) {
 										impls[key] = lst
 									}
 								}
+							}
+						}
+						// calls on a cache carry the instance: the field through which the cache is reached
+						if strings.HasPrefix(key, "cache.Cache.") {
+							if sel, ok := x.Fun.(*ast.SelectorExpr); ok {
+								if inner, ok := sel.X.(*ast.SelectorExpr); ok {
+									key += "@" + className(inner)
+								} else {
+									key += "@?"
+								}
+							}
+						}
+						if key == "cache.New" {
+							if l, ok := newLabel[x]; ok {
+								key += "@" + l
+							} else {
+								key += "@?"
 							}
 						}
 						pre := ""
